@@ -7,18 +7,19 @@
 EXTENDS TeakCore, Json, IOUtils, TLC
 
 Log == ndJsonDeserialize(IOEnv.TRACE)
-VARIABLE l
-Rec == Log[l]
+VARIABLE vL
+Rec == Log[vL]
 
 \* memory oracle: the value of each touched cell at its first access
 FirstIdx(acc, a) == CHOOSE i \in 1 .. Len(acc) : acc[i][1] = a /\ \A j \in 1 .. i - 1 : acc[j][1] # a
-Oracle(acc) == [a \in {acc[i][1] : i \in 1 .. Len(acc)} |-> acc[FirstIdx(acc, a)][3]]
+Oracle(acc) == [a \in {acc[i][1] : i \in 1 .. Len(acc)} \ (MmioBase .. MmioBase + 2047) |-> acc[FirstIdx(acc, a)][3]]
+IoOracle(acc) == [o \in {acc[i][1] - MmioBase : i \in {j \in 1 .. Len(acc) : InIo(acc[j][1])}} |-> acc[FirstIdx(acc, o + MmioBase)][3]]
 
 ApplyChg(pre, chg) == [i \in 1 .. Len(pre) |->
                           IF \E j \in 1 .. Len(chg) : chg[j][1] = i
                           THEN chg[CHOOSE j \in 1 .. Len(chg) : chg[j][1] = i][2] ELSE pre[i]]
 
-Start(rec) == [r |-> Unpack(rec.pre), mem |-> Oracle(rec.acc), acc |-> <<>>, out |-> "ok", idle |-> FALSE,
+Start(rec) == [r |-> Unpack(rec.pre), mem |-> Oracle(rec.acc), io |-> IoOracle(rec.acc), acc |-> <<>>, out |-> "ok", idle |-> FALSE,
                lat |-> <<rec.lat[1], rec.lat[2], rec.lat[3], rec.lat[4]>>, vaddr |-> rec.lat[5] * 65536 + rec.lat[6],
                vctx |-> rec.lat[7], miu |-> [base |-> 32768, z |-> 0]]
 
@@ -38,9 +39,9 @@ RecOk(rec) ==
             /\ (IF s1.idle THEN 1 ELSE 0) = rec.idle
             /\ s1.lat = rec.lat2
 
-TraceInit == l = 1
-TraceNext == l <= Len(Log) /\ RecOk(Rec) /\ l' = l + 1
-TraceSpec == TraceInit /\ [][TraceNext]_l
+TraceInit == vL = 1
+TraceNext == vL <= Len(Log) /\ RecOk(Rec) /\ vL' = vL + 1
+TraceSpec == TraceInit /\ [][TraceNext]_vL
 TraceAccepted ==
     /\ PrintT(<<"TRACE_MATCHED", TLCGet("stats").diameter - 1, Len(Log)>>)
     /\ TLCGet("stats").diameter - 1 = Len(Log)
